@@ -49,6 +49,12 @@ func runELScenario(seed uint64, size int, t *Trace) {
 		n := []int{0, 1, maxLine / 2, maxLine, maxLine + 1, 2 * maxLine, 5, maxB / 2}[r.Intn(8)]
 		alphabet = append(alphabet, strings.Repeat(string(rune('a'+i)), n))
 	}
+	// lines that end in a line break (the logger stores what it is given)
+	for _, tail := range []string{"\n", "\r\n", "\n\n"} {
+		if r.Chance(40) {
+			alphabet = append(alphabet, strings.Repeat("q", r.Intn(maxLine+2))+tail)
+		}
+	}
 	// lines whose bytes are not ASCII: multi-byte characters that straddle the per-line limit and bare
 	// continuation bytes (the limit is a limit in bytes, whatever the bytes mean)
 	for i, unit := range []string{"\u00e9", "\u20ac", "\U0001F600", "\x80", "\xbf\x80"} {
